@@ -6,7 +6,7 @@ from pyvc.contracts import Contract, State, conj, disj
 from pyvc.states import inp, sym_region, sym_mesh, _eq, old_attr, snapshot
 from .shared import RegionInit, MeshInit, NDIMS
 
-SCEN = ['lattice', 'lattice2', 'outside', 'frac_size', 'frac_offset']
+SCEN = ['lattice', 'lattice_same_meta', 'lattice2', 'outside', 'frac_size', 'frac_offset']
 ND = {'quick': [1, 2, 3], 'thorough': [1, 2, 3, 4]}
 
 
@@ -76,7 +76,9 @@ class SubregionsSetter(Contract):
             val = {}
             if sc == 'lattice2':
                 val['first'], g1 = frac_box(E, m, 'n0', 'lattice', assume)
-            val['new'], g = frac_box(E, m, 'n1', 'lattice' if sc in ('lattice2', 'bad_key') else sc, assume)
+            # 'lattice_same_meta': the candidate already carries the mesh's dims / units / tolerance (the mesh must still own a copy)
+            val['new'], g = frac_box(E, m, 'n1', 'lattice' if sc in ('lattice2', 'bad_key', 'lattice_same_meta') else sc, assume,
+                                     foreign_meta=(sc != 'lattice_same_meta'))
             if sc == 'bad_key':
                 val = {3: val['new']}
         st = State(m, [val], {})
